@@ -51,6 +51,7 @@ func init() {
 	probes["O37"] = probeO37
 	probes["O46"] = probeO46
 	probes["O50"] = probeO50
+	probes["O51"] = probeO51
 	probes["O48"] = probeO48
 	probes["O49"] = probeO49
 	probes["O47"] = probeO47
@@ -726,5 +727,16 @@ func probeO50() (bool, string) {
 		c.Merge(src)
 		_, err := c.Int("b", -1)
 		return t.A != nil || !strings.Contains(fmt.Sprint(err), "two.yml"), fmt.Sprint(t.A, " ", err)
+	})
+}
+
+func probeO51() (bool, string) {
+	return guard(func() (bool, string) {
+		fv := flag.NewFlagKeyValue(nil, true, ucfg.PathSep("."))
+		fv.Set("f=NaN")
+		_ = fv.String()
+		fv.Set("x=1")
+		has, _ := fv.Config().Has("x", -1)
+		return !has || fv.Error() != nil, fmt.Sprint("x set: ", has, ", Error() = ", fv.Error())
 	})
 }
